@@ -58,8 +58,11 @@ package file
 //@ ensures load-failure-is-returned: err == nil ==> loadFailed == old(loadFailed)
 //@ ensures error-means-zero: err != nil ==> result == 0
 
+// (shape: the Links field of a dag-pb node is a list by the dag-pb schema's typing; multi-block file
+// nodes are only ever made from dag-pb substrates by the reifier. Shape clauses are assumed for
+// every obligation kind, including the claimed nil-result sites, and listed as assumptions.)
 //@ func (*file.shardNodeFile).lengthFromLinks
-//@ domain links-is-a-list: isList(lookupStr(s.substrate, "Links"))
+//@ shape links-is-a-list: isList(lookupStr(s.substrate, "Links"))
 //@ ensures measuring-declared-sizes-requests-no-block: sizesDeclared(s) ==> loads == old(loads)
 //@ ensures load-failure-is-returned: err == nil ==> loadFailed == old(loadFailed)
 //@ ensures sum-of-the-childrens-sizes: err == nil ==> result == startOf(s, nkids(s))
@@ -161,7 +164,7 @@ package file
 //@ func (*file.shardNodeReader).makeReader
 //@ loop 0 invariant skipped-children-are-not-opened: len(readers) == 0 ==> loads == old(loads)
 //@ domain well-sized: sizesOK(s.shardNodeFile) && sizesDeclared(s.shardNodeFile) && 0 <= s.offset && s.offset < (1 << 62)
-//@ domain links-is-a-list: isList(lookupStr(s.shardNodeFile.substrate, "Links"))
+//@ shape links-is-a-list: isList(lookupStr(s.shardNodeFile.substrate, "Links"))
 //@ loop 0 invariant pos-algebra: 0 <= itpos(lnkIter) && itpos(lnkIter) <= itlen(lnkIter) && itlen(lnkIter) == nkids(s.shardNodeFile) && at == startOf(s.shardNodeFile, itpos(lnkIter))
 //@ inst pos-algebra: f: s.shardNodeFile
 //@ inst pos-algebra: it: lnkIter
